@@ -209,4 +209,84 @@ def target_reserved_words():
     return pyvc.collect(paths, "_check_name_for_reserved_words"), sum(1 for p in paths if p.covered)
 
 
-TARGETS = {"_check_type_requirements_for_field": target_type_requirements_for_field, "_check_name_for_reserved_words": target_reserved_words, "_check_allowed_in_bits": target_allowed_in_bits, "array_rules": target_array_rules}
+def target_fixed_size_of_type():
+    """ir_util.fixed_size_of_type_in_bits (the size every layout rule of C14 and the generated SizeInBits rely on): for a
+    type of 0, 1 or 2 array dimensions over an atomic base - each dimension omitted / constant (symbolic count) / not
+    constant; the base with an explicit size (symbolic), or a definition with or without a [fixed_size_in_bits] attribute:
+
+        any dimension omitted or not constant, or a base of unknown size   ->  None
+        otherwise                                                           ->  base size * product of the dimensions"""
+    ir_util = importlib.import_module("compiler.util.ir_util")
+    eng = pyvc.Engine()
+    eng.contract(ir_util.is_constant, lambda interp, e: e.f["ghost_constant"], "is_constant")
+    eng.contract(ir_util.constant_value, lambda interp, e, bindings=None: e.f["ghost_cv"], "constant_value")
+    eng.contract(ir_util.find_object, lambda interp, ref, ir: ref.f["ghost_object"], "find_object")
+
+    def harness(c):
+        dims = [c.choice("dimension%d" % i, ["constant", "automatic", "run-time"]) for i in range(int(c.choice("dimensions", ["0", "1", "2"])))]
+        base = c.choice("base", ["explicit-size", "fixed-size-type", "variable-size-type"])
+        size = z3.Int("base_size")
+        counts = [z3.Int("count%d" % i) for i in range(len(dims))]
+        c.assume(z3.And([size >= 0] + [n >= 0 for n in counts]))
+        attr = SRec("Attribute", {"expression": SRec("Expression", {"ghost_cv": SInt(size)})})
+        eng.contract(ir_util.get_attribute, lambda interp, attrs, name: attr if base == "fixed-size-type" else None, "get_attribute")
+        tf = {"atomic_type": SRec("AtomicType", {"reference": SRec("Reference", {"ghost_object": SRec("TypeDefinition", {"attribute": []})})})}
+        if base == "explicit-size":
+            tf["size_in_bits"] = SRec("Expression", {"ghost_cv": SInt(size)})
+        t = SRec("Type", tf, defaults={"has:array_type": False, "has:atomic_type": True, "has:size_in_bits": base == "explicit-size"})
+        for d, n in reversed(list(zip(dims, counts))):
+            at = SRec("ArrayType", {"which_size": "automatic" if d == "automatic" else "element_count", "base_type": t,
+                                    "element_count": SRec("Expression", {"ghost_constant": d == "constant", "ghost_cv": SInt(n)})})
+            t = SRec("Type", {"array_type": at}, defaults={"has:array_type": True, "has:atomic_type": False, "has:size_in_bits": False})
+        c.covered = True
+        st, got = pyvc.run_body(c, "compiler.util.ir_util.fixed_size_of_type_in_bits", [t, "IR"])
+        known = all(d == "constant" for d in dims) and base != "variable-size-type"
+        if not known:
+            c.oblige("unknown-size-gives-None", got is None, detail=repr(got))
+        else:
+            want = size
+            for n in counts:
+                want = want * n
+            c.oblige("size-is-base-size-times-the-dimensions", got is not None and pyvc.zint(got) == want, detail=repr(got))
+    paths = eng.explore(harness)
+    return pyvc.collect(paths, "fixed_size_of_type_in_bits"), sum(1 for p in paths if p.covered)
+
+
+def target_array_element_multiple_of_bytes():
+    """constraints._check_that_array_base_types_in_structs_are_multiples_of_bytes: for the innermost array only, with the
+    element size taken from its explicit size, else from the fixed size of its type (symbolic, any non-negative integer):
+    one error at the element type iff the size is known and not a multiple of the enclosing definition's addressable unit
+    (8 bits in a struct; in a bits definition every size is a multiple of 1); element types of unknown size and outer
+    dimensions of multi-dimensional arrays -> nothing here."""
+    cons, ir_util, eng = _engine()
+    ir_data = importlib.import_module("compiler.util.ir_data")
+    eng.contract(ir_util.is_constant, lambda interp, e: True, "is_constant")
+    eng.contract(ir_util.constant_value, lambda interp, e, bindings=None: e.f["ghost_cv"], "constant_value")
+
+    def harness(c):
+        unit = c.choice("enclosing", ["BYTE", "BIT"])
+        elem = c.choice("element", ["array", "explicit-size", "fixed-size-type", "variable-size-type"])
+        size = z3.Int("element_size_in_bits")
+        c.assume(size >= 0)
+        eng.contract(ir_util.fixed_size_of_type_in_bits, lambda interp, t, ir: SInt(size) if elem == "fixed-size-type" else None, "fixed_size_of_type_in_bits")
+        btf = {"source_location": ("LOC", "elem")}
+        if elem == "explicit-size":
+            btf["size_in_bits"] = SRec("Expression", {"ghost_cv": SInt(size)})
+        bt = SRec("Type", btf,
+                  defaults={"has:array_type": elem == "array", "has:atomic_type": elem != "array", "has:size_in_bits": elem == "explicit-size"})
+        td = SRec("TypeDefinition", {"addressable_unit": getattr(ir_data.AddressableUnit, unit)})
+        errors = []
+        c.covered = True
+        pyvc.run_body(c, CN + "._check_that_array_base_types_in_structs_are_multiples_of_bytes", [SRec("ArrayType", {"base_type": bt}), td, "m.emb", errors, "IR"])
+        known = elem in ("explicit-size", "fixed-size-type")
+        want = z3.And(z3.BoolVal(known and unit == "BYTE"), size % 8 != 0)
+        if errors:
+            ok = len(errors) == 1 and len(errors[0]) == 1 and errors[0][0][1] == ("LOC", "elem") and "multiple of 8 bits" in errors[0][0][2]
+            c.oblige("error-only-for-a-known-size-that-is-not-a-multiple-of-the-unit", z3.And(want, z3.BoolVal(ok)), detail=repr(errors)[:200])
+        else:
+            c.oblige("no-error-only-when-the-size-is-unknown-or-a-multiple-of-the-unit", z3.Not(want))
+    paths = eng.explore(harness)
+    return pyvc.collect(paths, "_check_that_array_base_types_in_structs_are_multiples_of_bytes"), sum(1 for p in paths if p.covered)
+
+
+TARGETS = {"_check_type_requirements_for_field": target_type_requirements_for_field, "_check_name_for_reserved_words": target_reserved_words, "array_element_multiple_of_bytes": target_array_element_multiple_of_bytes, "fixed_size_of_type_in_bits": target_fixed_size_of_type, "_check_allowed_in_bits": target_allowed_in_bits, "array_rules": target_array_rules}
